@@ -127,6 +127,15 @@ func buildRichDoc(r *rng, f *docFeat) *document.Document {
 	d := document.New()
 	n := r.rangeI(1, 9)
 	for i := 0; i < n; i++ {
+		if r.chance(3) {
+			// a formula paragraph, inline or block; its content is kept as it is written (raw OMML, entities, blanks)
+			mp := d.AddMathFormula([]string{"<m:r><m:t>x^2 + y^2</m:t></m:r>", "<m:f><m:num><m:r><m:t>a &lt; b &amp; c</m:t></m:r></m:num><m:den><m:r><m:t xml:space=\"preserve\"> 2 </m:t></m:r></m:den></m:f>", "plain text formula", "", "<m:r/>"}[r.intn(5)], r.chance(50))
+			if r.chance(40) {
+				mp.Runs = append(mp.Runs, document.Run{Text: document.Text{Content: "see ", Space: "preserve"}})
+			}
+			f.hit("AddMathFormula")
+			continue
+		}
 		switch r.pick([]int{22, 14, 8, 4, 18, 8, 8, 4, 6, 4, 4}) {
 		case 0:
 			p := d.AddParagraph(rtTexts[r.intn(len(rtTexts))])
